@@ -303,6 +303,14 @@ func genDec(r *vc.Rand, thorough bool) []caseLine {
 			out = append(out, decCase(s, randSizes(r, len(s), 12), r.Intn(3) == 0, "length-field"))
 		}
 	}
+	// (2b) uint32 wrap windows: the top values of the length field (any "length + header" arithmetic wraps
+	//      there) and the values around 2^31 and 2^16 multiples
+	for _, base := range []uint32{0xffffffff, 0x80000000 + 40, 0x00020000 + 40, 0x01000000 + 40} {
+		for d := uint32(0); d < 80; d++ {
+			s := encFrame(vc.Pick(r, someIDs), vc.Pick(r, someTypes), base-d, genBytes(int(d%7), 3))
+			out = append(out, decCase(s, randSizes(r, len(s), 4), d%5 == 0, "length-wrap"))
+		}
+	}
 	// (3) every type byte, every header byte position perturbed
 	for ty := 0; ty < 256; ty++ {
 		s := encFrame(vc.Pick(r, someIDs), byte(ty), 3, []byte{1, 2, 3})
